@@ -74,7 +74,7 @@ func TestE3(t *testing.T) {
 	}
 	loadKnown()
 	e3T = t
-	mqtt.VerifGate, mqtt.VerifGateSel, mqtt.VerifGoStart, mqtt.VerifGoEnd, mqtt.VerifPanic = nil, nil, nil, nil, nil
+	mqtt.VerifGate, mqtt.VerifGateSel, mqtt.VerifGoStart, mqtt.VerifGoEnd, mqtt.VerifPanic, mqtt.VerifLockWait = nil, nil, nil, nil, nil, nil
 	e := &e3{res: &WorkerResult{Scenario: name, Outcomes: map[string]int{}}, nshards: 1, distinct: map[string]bool{}, viols: map[string]*FoundViolation{}}
 	if s := os.Getenv("VERIF_SHARD"); s != "" {
 		fmt.Sscanf(s, "%d/%d", &e.shard, &e.nshards)
